@@ -156,6 +156,31 @@ def run(rng, tier, res=None, want=("knnpred", "select")):
                 if best_k != wantk:
                     msgs.append(f"kept k={best_k}; smallest k with the highest accuracy in {crit} is {wantk}")
                 viol("C16", msgs, meta)
+            # the criterion itself: normalised cut of the final clustering, against the model (Float, bit-exact)
+            if unsup:
+                kk = best_k
+                cutv = orig_cut(kk)
+                adjl = [[int(a) for a in nd_.adjacency] for nd_ in nd]
+                dm = [fb(fn(X[i], X[j])) for i in range(n) for j in range(n)]
+                from s_knn import lists_tok
+                line = (f"ncut {n} {kk} {sg.n_clusters} {lists_tok(adjl)} {ints(nd_.n_plateaus for nd_ in nd)} "
+                        f"{ints(nd_.cluster_label for nd_ in nd)} {ints(dm)}")
+                lines.append(" ".join(line.split())); obs.append(str(fb(cutv))); metas.append(meta)
+                res.add_case(lines[-1], nontrivial=True); res.hit("ncut")
+                # oracle: definition in exact rationals
+                from fractions import Fraction as Fr
+                inte = [Fr(0)] * sg.n_clusters; exte = [Fr(0)] * sg.n_clusters
+                for i in range(n):
+                    for j in adjl[i][: nd[i].n_plateaus + kk]:
+                        dv = float(fn(X[i], X[j]))
+                        if dv > 0:
+                            if nd[i].cluster_label == nd[j].cluster_label:
+                                inte[nd[i].cluster_label] += 1 / Fr(dv)
+                            else:
+                                exte[nd[i].cluster_label] += 1 / Fr(dv)
+                wantc = sum((exte[l] / (inte[l] + exte[l]) for l in range(sg.n_clusters) if inte[l] + exte[l] > 0), Fr(0))
+                if abs(float(wantc) - cutv) > 1e-9 * max(1, abs(cutv)):
+                    viol("C16", f"normalised cut {cutv} != sum over clusters of external/(internal+external) = {float(wantc)}", meta)
             # final model is the one built with best_k (same running density bound)
             sg2 = KNNSubgraph(X.copy(), Y.copy())
             if unsup:
